@@ -128,6 +128,30 @@ def _check_cvc5(args):
     return (name, r, time.time() - t0, None, 'cvc5')
 
 
+HINTS_FILE = os.path.join(os.path.dirname(os.path.dirname(os.path.abspath(__file__))), 'solver_hints.json')
+_HINTS = None
+
+
+def hint_key(ob):
+    return ob.name + '|' + '/'.join(ob.trail)
+
+
+def load_hints():
+    """which solver configuration discharged each obligation on the recorded tree: a speed hint only -- every
+    configuration is sound, and obligations without (or with a stale) hint go through all configurations"""
+    global _HINTS
+    if _HINTS is None:
+        try:
+            import json
+            _HINTS = json.load(open(HINTS_FILE))
+        except Exception:
+            _HINTS = {}
+    return _HINTS
+
+
+NEW_HINTS = {}
+
+
 def discharge(obls, timeout_s=10, procs=None, use_cvc5=True, log=None):
     """-> list of result dicts in the order of obls.
     Round 1: one cheap configuration per obligation.  Round 2: every remaining configuration of every still-open
@@ -144,11 +168,16 @@ def discharge(obls, timeout_s=10, procs=None, use_cvc5=True, log=None):
         return int((min(timeout_s, 3) if obls[n].expect_sat else timeout_s) * 1000)
     # round 1
     jobs = []
+    hints = load_hints()
     for n, ob in enumerate(obls):
         if ob.expect_sat:
             jobs.append((n, len(STAGES) - 1, smts[n], budget(n), True, False))
         else:
-            jobs.append((n, 1, smts[n], min(2000, budget(n)), False, True))
+            sid = hints.get(hint_key(ob))
+            if isinstance(sid, int) and 0 <= sid < len(STAGES):
+                jobs.append((n, sid, smts[n], budget(n), False, True))
+            else:
+                jobs.append((n, 1, smts[n], min(2000, budget(n)), False, True))
     if jobs:
         with ctx.Pool(min(procs, max(1, len(jobs)))) as pool:
             for r in pool.imap_unordered(_stage, jobs, chunksize=1):
@@ -195,6 +224,8 @@ def discharge(obls, timeout_s=10, procs=None, use_cvc5=True, log=None):
                     verdict[n] = (n, -1, PROVED, r[2], None, 'cvc5')
     out = []
     for n, ob in enumerate(obls):
+        if n in verdict and verdict[n][2] == PROVED and not ob.expect_sat and verdict[n][1] >= 0:
+            NEW_HINTS[hint_key(ob)] = verdict[n][1]
         r = verdict.get(n) or info.get(n) or (n, -1, UNKNOWN, 0.0, {'reason': 'not run'}, 'z3')
         out.append(dict(name=ob.name, kind=ob.kind, fn=ob.fn, lineno=ob.lineno, verdict=r[2] if n in verdict else UNKNOWN,
                         time=t_spent.get(n, r[3]), backend=r[5], info=r[4], trail=ob.trail, props=ob.props,
